@@ -191,6 +191,7 @@ def write_evidence(mod, tier, seed, stats, wall, violations, extra=None):
         "classes": dict(sorted(stats.classes.items())),
         "exhaustive": bool(stats.spaces) and not stats.budget_exhausted,
         "exhaustive_spaces": dict(stats.spaces),
+        "exhaustive_note": "exhaustive refers to the finite sub-spaces listed in exhaustive_spaces (enumerated completely); the generated part is a seeded sample",
         "excluded_by_construction": int(stats.excluded),
         "known_findings_seen": dict(stats.known),
         "replayed_corpus": int(stats.replayed),
